@@ -55,7 +55,7 @@ func genLoopCase(t *rapid.T) interface{} {
 		case 1:
 			p = rapid.Int64Range(1, 5).Draw(t, "p")
 		case 2:
-			p = rapid.SampledFrom([]int64{1, 10, 100, 1000, 1 << 30}).Draw(t, "p")
+			p = rapid.SampledFrom([]int64{1, 10, 100, 1000, 1 << 30, 1 << 33, 6000000000, 1 << 40}).Draw(t, "p") // consensus power is an int64: above 2^32 with an 18-decimals staking token
 		default:
 			p = rapid.Int64Range(1, 1000).Draw(t, "p")
 		}
@@ -232,7 +232,15 @@ func runLoopCase(ci interface{}, rec *pbt.Rec) *pbt.Failure {
 		sum.Add(sum, p)
 	}
 	if sum.Cmp(big.NewInt(contractThreshold)) <= 0 {
-		return nil // the contract refuses to deploy with a set below its threshold
+		allKeyed := true
+		for _, nk := range c.NoKey {
+			allKeyed = allKeyed && !nk
+		}
+		if allKeyed {
+			// every validator is a member: the powers are shares of 2^32, each truncated, so they add up to almost all of it
+			return pbt.Failf("published-set-below-threshold", "the hub's first signer set, with every validator a member, has a total power of %s: even with all members signing, the contract's threshold %d cannot be passed (powers %v, stakes %v)", sum, contractThreshold, first.Powers, c.Powers)
+		}
+		return nil // members hold too small a share of the stake: the contract refuses to deploy with a set below its threshold
 	}
 	w.ch, err = evm.NewChain(gid, big.NewInt(contractThreshold), first.Vals, first.Powers, 1000)
 	if err != nil {
